@@ -20,13 +20,13 @@ TIERS = {
         plan={"ASSGN2": (8, 30, 7, 19, 28, 18), "XMLISH": (7, 30, 6, 20, 28, 18), "NUM": (7, 18, 6, 14, 24, 14),
               "NULLABLE": (8, 16, 7, 13, 24, 14), "AMBIG": (6, 15, 5, 13, 24, 14), "LEFTREC": (7, 22, 6, 16, 24, 14),
               "RIGHTREC": (8, 20, 7, 16, 24, 14), "MULTICHAR": (3, 8, 3, 8, 8, 9), "CSVISH": (8, 22, 7, 16, 28, 18),
-              "TWOSTART": (8, 16, 7, 13, 12, 14), "LENGTHS": (7, 18, 6, 14, 24, 14)},
+              "TWOSTART": (8, 16, 7, 13, 12, 14), "LENGTHS": (7, 18, 6, 14, 24, 14), "MARKUP": (7, 14, 6, 12, 16, 10)},
         expand_seeds=3, mutate_seeds=2, step_timeout=150, cap=10, n_phase1=5, phase1_seeds=1),
     "thorough": dict(
         plan={"ASSGN2": (9, 34, 8, 22, 220, 120), "XMLISH": (8, 34, 7, 24, 220, 120), "NUM": (8, 20, 7, 16, 160, 100),
               "NULLABLE": (10, 20, 9, 17, 60, 30), "AMBIG": (7, 17, 6, 15, 160, 60), "LEFTREC": (8, 24, 7, 18, 160, 80),
               "RIGHTREC": (9, 24, 8, 18, 160, 80), "MULTICHAR": (3, 8, 3, 8, 8, 9), "CSVISH": (8, 24, 7, 18, 220, 120),
-              "TWOSTART": (10, 20, 9, 17, 30, 20), "LENGTHS": (8, 20, 7, 16, 160, 100)},
+              "TWOSTART": (10, 20, 9, 17, 30, 20), "LENGTHS": (8, 20, 7, 16, 160, 100), "MARKUP": (8, 18, 7, 15, 80, 40)},
         expand_seeds=5, mutate_seeds=4, step_timeout=400, cap=30, n_phase1=16, phase1_seeds=2),
 }
 FUZZERS = [("GrammarFuzzer", 0, 10), ("GrammarCoverageFuzzer", 0, 10), ("GrammarFuzzer", 2, 5), ("GrammarCoverageFuzzer", 3, 20)]
@@ -62,6 +62,27 @@ def sample(rnd, xs, n):
     return keep + rnd.sample(rest, max(0, n - len(keep)))
 
 
+def _nt_subtrees(t):
+    for c in t["ch"]:
+        if c["nt"]:
+            yield c
+            yield from _nt_subtrees(c)
+
+
+def _shape(t):
+    return {"n": t["n"], "nt": t["nt"], "open": t["open"], "c": t["c"], "ch": [_shape(c) for c in t["ch"]]}
+
+
+def _renum(t):
+    t = json.loads(json.dumps(t))
+    pj.renumber(t)
+    return t
+
+
+def _has_open(t):
+    return t["open"] or any(_has_open(c) for c in t["ch"])
+
+
 def build_units(chk, wd):
     P = TIERS[chk.tier]
     names = list(P["plan"])
@@ -78,6 +99,15 @@ def build_units(chk, wd):
         # expand_tree is also run on the bare start symbol (= fuzz_tree) and on closed trees (nothing to do)
         opens += [{"n": "<start>", "nt": True, "open": True, "c": [], "id": 0, "ch": []}] + sample(rnd, d["closed"], 2)
         closed = sample(rnd, d["closed"], n_closed)
+        # trees rooted in other nonterminals than <start>: small proper subtrees of the enumerated trees (as distinct shapes)
+        subs_c, subs_o = {}, {}
+        for pool, acc in ((d["closed"], subs_c), (d["open"], subs_o)):
+            for t in pool:
+                for sub in _nt_subtrees(t):
+                    if 2 <= pj.size(sub) <= 9:
+                        acc.setdefault(json.dumps(_shape(sub), sort_keys=True), sub)
+        closed += [_renum(t) for t in sample(rnd, [subs_c[k] for k in sorted(subs_c)], max(4, n_closed // 2))]
+        opens += [_renum(t) for t in sample(rnd, [subs_o[k] for k in sorted(subs_o) if _has_open(subs_o[k])], max(3, n_open // 4))]
         for s in range(P["expand_seeds"]):
             for fi, (cls, mn, mx) in enumerate(FUZZERS):
                 order = list(opens)
